@@ -50,10 +50,10 @@ def requestOf (hs : Headers) : Request :=
   { headers := Utils.filterPseudo hs, version := "2", method := H11.decodeAsciiUpper ((lastVal hs ":method".b).getD []),
     rawPath := (lastVal hs ":path".b).getD [] }
 
-/-- `HTTPStream.handle(Request)`: the scope (`raw_path.partition(b"?")`; the same code serves HTTP/1, cf. `H11.scopeOf`) -/
+/-- `HTTPStream.handle(Request)`: the scope (the extracted split of `raw_path`; the same code serves HTTP/1, cf. `H11.scopeOf`) -/
 def scopeOf (r : Request) : H11.Scope :=
-  { kind := "http", method := r.method, version := r.version, rawPath := (Bytes.partitionB 63 r.rawPath).1,
-    query := (Bytes.partitionB 63 r.rawPath).2.2, headers := r.headers }
+  { kind := "http", method := r.method, version := r.version, rawPath := HC.Extracted.ReqGlue.targetRawPath r.rawPath,
+    query := HC.Extracted.ReqGlue.targetQuery r.rawPath, headers := r.headers }
 
 inductive RxOp where
   | request (sid : Nat) (hs : Headers) (ins lib : Option Exn)
